@@ -11,6 +11,8 @@ ENGINE_CFG = {"default_unwind": 14, "aead_bound": 160}
 HARNESSES = [
     {"name": "request8", "fn": N + "VerifC10Request8", "bounds": "request with a 32-byte id and an 8-byte cookie; adversary packet of the same length and extension layout, all other bytes and the key arbitrary"},
     {"name": "response", "fn": N + "VerifC10Response", "bounds": "response with one 8-byte cookie; layout-preserving adversary, arbitrary key and request id"},
+    {"name": "responsetrailing", "fn": N + "VerifC10ResponseTrailing", "bounds": "genuine response followed by 36 arbitrary bytes; arbitrary request id"},
+    {"name": "requesttrailing", "fn": N + "VerifC10RequestTrailing", "bounds": "genuine request followed by 36 arbitrary bytes"},
     {"name": "cookie", "fn": K + "VerifC10Cookie", "bounds": "cookie with 32-byte keys; arbitrary second key"},
     {"name": "cookietamper", "fn": K + "VerifC10CookieTamper", "bounds": "cookie with the sealed layout and arbitrary nonce / ciphertext bytes", "thorough_only": True},
 ]
